@@ -182,6 +182,9 @@ int disasm_arc(
         get_register(memory, address, b, reg_b, sizeof(reg_b));
         get_register(memory, address, c, reg_c, sizeof(reg_c));
 
+        // Register 62 as a destination means no destination.
+        if (a == LIMM) { strcpy(reg_a, "0"); }
+
         switch (sub_type)
         {
           case 0:
@@ -221,16 +224,9 @@ int disasm_arc(
             }
             break;
           case 1:
-            if (c == LIMM)
-            {
-              // xxx.f 0,b,u6
-              snprintf(temp, sizeof(temp), "0, %s, %d", reg_b, c);
-            }
-              else
-            {
-              // xxx.f a,b,u6
-              snprintf(temp, sizeof(temp), "%s, %s, %d", reg_a, reg_b, c);
-            }
+            // xxx.f a,b,u6
+            // xxx.f 0,b,u6
+            snprintf(temp, sizeof(temp), "%s, %s, %d", reg_a, reg_b, c);
             break;
           case 2:
             // xxx.f b,b,s12
